@@ -343,6 +343,12 @@ func (w *World) sideOptions() []kernel.Option {
 				w.llWhich = 1 - w.llWhich
 				w.llSince, w.llSettled = w.s.Now(), false
 				w.llDirty = true
+				// the rebuild this change leads to is not shepherded to completion by the driver: the new distributor's
+				// get-roots calls may time out (the clock may jump while they are outstanding), leaving it without root
+				// knowledge for some logs - which it then, correctly, treats as "unknown, so compatible". Root knowledge
+				// counts as settled again only after a change-and-settle event. (Third false-alarm cause of this oracle
+				// found by the thorough tier.)
+				w.rootsSettled = false
 				for _, c := range w.calls {
 					if c.Kind == "proxy" && !c.Checked {
 						c.ListMoved = true
